@@ -11,7 +11,7 @@ ill-formed answers `bad-op`).
   LRVALID <slot>               `valid` | `invalid <first failing conjunct>`
   RUN <slot> <fuel> <syms>     `accept <tree>` | `error <code|N> <index> <state> <expected>` |
                                `internal <why>` | `out-of-fuel`
-  BISIM <slotA> <slotB>        `bisim ok pairs=<n>` | `bisim mismatch path=<syms> at=<s>,<t> why=<..>`
+  BISIM <slotA> <slotB>        `bisim ok pairs=<n> identity=<bool>` | `bisim mismatch path=<syms> at=<s>,<t> why=<..>`
   SAMERULES <slotA> <slotB>    `same` | `differ`
 Empty fields are written `-`.
   prods    lhs>r1,r2;lhs>;...
@@ -204,7 +204,8 @@ def doBisim (A B : Automaton) : String :=
     s!"bisim mismatch path={p} at={m.s},{m.t} why={m.why}"
   | .ok π =>
     if bisimB A B π then
-      s!"bisim ok pairs={(π.toList.filter (·.isSome)).length}"
+      let ident := π.toList.zipIdx.all (fun (o, i) => o.isNone || o == some i)
+      s!"bisim ok pairs={(π.toList.filter (·.isSome)).length} identity={ident}"
     else "bisim mismatch path=- at=0,0 why=pairing found by search is rejected by the verified checker"
 
 @[noinline] def partB (g : Grammar) (a : Automaton) (c : Cert) (part : String) : Option Bool :=
